@@ -149,8 +149,31 @@ func (u *Unit) eval(e ast.Expr, env *Env) Value {
 			} else {
 				sub.assume(Not(l.Term))
 			}
+			guard := sub.pc[len(sub.pc)-1]
+			basePC := len(sub.pc)
 			r := u.eval(x.Y, sub)
 			u.adoptDecls(env, sub)
+			// what was learnt (callee postconditions, definitions) and what changed while evaluating the right operand holds
+			// under the condition that it was evaluated
+			if len(sub.pc) >= basePC && len(env.pc) == basePC-1 {
+				for _, f := range sub.pc[basePC:] {
+					env.assume(Imp(guard, f))
+				}
+				for n, h := range sub.heaps {
+					if old, ok := env.heaps[n]; ok && old.S != h.S {
+						env.heaps[n] = u.define(env, "h_"+n, Ite(guard, h, old))
+					}
+				}
+				if sub.clock.S != env.clock.S {
+					env.clock = u.define(env, "clk", Ite(guard, sub.clock, env.clock))
+				}
+				if sub.tr != nil && env.tr != nil && sub.tr.n.S != env.tr.n.S {
+					a, b := sub.tr, env.tr
+					env.tr = &traceState{n: Ite(guard, a.n, b.n), kind: Ite(guard, a.kind, b.kind), fn: Ite(guard, a.fn, b.fn), arg: Ite(guard, a.arg, b.arg),
+						obj: Ite(guard, a.obj, b.obj), err: Ite(guard, a.err, b.err), recv: Ite(guard, a.recv, b.recv), res: Ite(guard, a.res, b.res),
+						args: Ite(guard, a.args, b.args), ress: Ite(guard, a.ress, b.ress)}
+				}
+			}
 			if x.Op == token.LAND {
 				return Value{And(l.Term, r.Term), types.Typ[types.Bool]}
 			}
